@@ -75,4 +75,50 @@ def opRun (j : Json) : R Json := do
   return obj [("components", jl (fun (p : String × List V) => Json.arr #[js p.1, jl js (sortStrings p.2)]) named),
               ("model", modelJ), ("model_files", filesJ), ("spec", Json.arr res.toArray)]
 
+/-- op "order.command": {gfa, option, with_seq, impl_csv: [{name, rows}] | null, impl_complete: gfa tokens | null}
+    — the whole command from the raw `--chromosome_order` option: the resolved request (null = rejected, exit 1), the CSV rows
+    of every written chromosome, the `-complete` GFA and CSV; the CSV / complete specifications evaluated on the tool's own
+    output when given -/
+def opCommand (j : Json) : R Json := do
+  let t ← Gaftools.Drv.Gfa.gfaOf (← fld j "gfa")
+  let option ← str j "option"
+  let withSeq ← bool j "with_seq"
+  let lm := !withSeq
+  let fileJ (f : GfaFile) : Json := obj [
+    ("segs", jl (fun (x : SegLine) => Json.arr #[js x.id, js x.seq, jl (fun (tg : Tag) => js (tg.name ++ ":" ++ tg.ty ++ ":" ++ tg.val)) x.tags]) f.segs),
+    ("links", jl (fun (l : LinkLine) => Json.arr #[js l.a, jb l.da, js l.b, jb l.db, jn l.ov, jl js l.tags]) f.links)]
+  let names := componentNames t lm
+  match resolveOrder names option with
+  | none => return obj [("names", jl js names), ("resolved", Json.null)]
+  | some order =>
+    match orderRun t order lm with
+    | .error w => return obj [("names", jl js names), ("resolved", jl js order), ("crash", js w)]
+    | .ok (ws, _) =>
+      let g := readGraph t lm
+      let outs := ws.map (fun w => (w, orderFile g w, orderCsv g w (compOfName t lm w.name)))
+      let complete := completeGfa (outs.map (·.2.1))
+      let ccsv := completeCsv (outs.map (·.2.2))
+      -- specifications on the implementation's own output
+      let implCsv : List (String × List (List String) × GfaFile) ← match (fld j "impl_csv").toOption with
+        | some Json.null | none => pure []
+        | some a => listOf (fun x => do
+            return (← str x "name", ← listOf (listOf jStr) (← fld x "rows"), ← Gaftools.Drv.Gfa.gfaOf (← fld x "out"))) a
+      let nb := Graph.nbFun g
+      -- role: orange = cut vertex of the component by definition (the only node of a one-node component counts as scaffold);
+      -- BO / NO: those of the GFA file the tool wrote next to the CSV
+      let csvSpec := implCsv.map (fun (p : String × List (List String) × GfaFile) =>
+        let comp := compOfName t lm p.1
+        let ch := chainOf nb comp
+        (p.1, specCsv t comp (tagsOfFile p.2.2) (fun v => if comp.length == 1 then true else ch.aps.contains v) p.2.1))
+      let implComplete ← match (fld j "impl_complete").toOption with
+        | some Json.null | none => pure none
+        | some o => some <$> Gaftools.Drv.Gfa.gfaOf o
+      let tagRun (v : V) : Option (Int × Int) := (ws.findSome? (fun w => (w.tags.find? (·.1 == v)))).map (·.2)
+      let completeSpec := implComplete.map (fun f => specComplete (outs.map (·.2.1)) tagRun f)
+      return obj [("names", jl js names), ("resolved", jl js order),
+                  ("csv", jl (fun (x : Written × GfaFile × List (List String)) => obj [("name", js x.1.name), ("rows", jl (jl js) x.2.2)]) outs),
+                  ("complete", fileJ complete), ("complete_csv", jl (jl js) ccsv),
+                  ("csv_spec", jl (fun (p : String × Bool) => Json.arr #[js p.1, jb p.2]) csvSpec),
+                  ("complete_spec", match completeSpec with | some b => jb b | none => Json.null)]
+
 end Gaftools.Drv.Order
